@@ -1,0 +1,17 @@
+//go:build verif
+// +build verif
+
+package pool
+
+import "time"
+
+// Verification accessors for unexported constants (only built with -tags verif).
+
+func VerifDefaultRequestNumHosts() int { return defaultRequestNumHosts }
+
+func VerifPoolWhitelistTimeout() time.Duration { return poolWhitelistTimeout }
+
+// VerifNormalizeNodeURI exposes normalizeNodeURI.
+func VerifNormalizeNodeURI(nodeURI, nodeID, defaultHost, defaultPort string) (string, error) {
+	return normalizeNodeURI(nodeURI, nodeID, defaultHost, defaultPort)
+}
